@@ -4,11 +4,13 @@ progress is allowed to hold at count 0 for a moment (`x`) — has `refCount ≥ 
 namespace Slock.Engine2
 
 /-- a lock record in order: counted at least once; if it is a hold (depth > 0) it has an expiry-wheel entry; if it has been ended
-(`expried`) it is not a hold any more -/
+(`expried`) it is not a hold any more; an expiry-wheel entry of a record that is not a hold is a tombstone (`expried` is set: the
+sweeper will only drop it) -/
 structure RecFine (r : Rec) : Prop where
   pos : 1 ≤ r.refCount
   hold : 0 < r.depth → r.eSched.isSome = true
   ended : r.expried = true → r.depth = 0
+  fin : r.depth = 0 → r.eSched.isSome = true → r.expried = true
 
 def NZx (k : Key) (x : Option Nat) : Prop := ∀ r ∈ k.recs, some r.rid ≠ x → RecFine r
 
@@ -74,7 +76,7 @@ theorem NZx.free_clear {k : Key} (rid : Nat) (h : NZx k (some rid)) : NZx (k.fre
     exact hn hh
 
 theorem recFine_dec {r : Rec} (h : RecFine r) (hne : decU8 r.refCount ≠ 0) : RecFine { r with refCount := decU8 r.refCount } :=
-  ⟨by simp only []; omega, h.hold, h.ended⟩
+  ⟨by simp only []; omega, h.hold, h.ended, h.fin⟩
 
 /-- `refCount--; if refCount == 0 { FreeLock }`: the record is gone or still in order; the exemption stays as it is -/
 theorem NZx.unref {k : Key} {x : Option Nat} (hn : (k.recs.map (·.rid)).Nodup) (h : NZx k x) (y : Nat) : NZx (k.unref y) x := by
@@ -258,7 +260,7 @@ theorem nz_addWaitLock {k : Key} {x : Option Nat} (hn : k.NoDup) (rid : Nat) (h 
     have := nz_waitPush hn1 h1 ⟨rid, Slock.Engine.cmdPriority (k.getR rid).cmd⟩
     exact ⟨(this.1.modRec rid _ (by intro _; rfl)).of_recs rfl,
       (this.2.modRec rid (fun r => { r with refCount := r.refCount + 1 }) (fun _ => rfl)
-        (fun r hr => ⟨Nat.le_add_left 1 r.refCount, hr.hold, hr.ended⟩)).of_recs rfl⟩
+        (fun r hr => ⟨Nat.le_add_left 1 r.refCount, hr.hold, hr.ended, hr.fin⟩)).of_recs rfl⟩
   split
   · split
     · split
